@@ -171,6 +171,11 @@ pub struct ScriptBus {
     /// object on another bus, on the caller's thread (a relay, a gateway, a simulator that mirrors to real hardware)
     pub relay: Option<Box<dyn FnMut(usize)>>,
     pub relayed: usize,
+    /// the reply at this depth, if it is a state report or an acknowledgement, is delivered as `Message::Unknown` around
+    /// that message's own frame (a bus that hands frames up undecoded): to the controller it is an unknown frame, whatever
+    /// it would decode to
+    pub wrap_at: Option<usize>,
+    pub wrapped: usize,
 }
 
 impl ScriptBus {
@@ -191,6 +196,8 @@ impl ScriptBus {
             error_flavour: 0,
             relay: None,
             relayed: 0,
+            wrap_at: None,
+            wrapped: 0,
         }
     }
 }
@@ -227,6 +234,14 @@ impl SignBus for ScriptBus {
             }
             let c = self.script[depth];
             if c == SYM_ECHO { (Reply::Msg(Some(got.clone())), c) } else { (self.alphabet[c as usize].clone(), c) }
+        };
+        let reply = match (&reply, self.wrap_at) {
+            (Reply::Msg(Some(m @ (RefMsg::Report(..) | RefMsg::Ack(..)))), Some(d)) if d == depth => {
+                let (addr, ty, data) = refs::build(m);
+                self.wrapped += 1;
+                Reply::Msg(Some(RefMsg::Unknown { addr, ty, data }))
+            }
+            _ => reply,
         };
         self.offered.push(sym);
         if let Some(m) = &mut self.model {
@@ -318,6 +333,16 @@ impl Session {
             };
         }));
         self
+    }
+
+    /// See `ScriptBus::wrap_at`.
+    pub fn with_wrapped_reply_at(self, depth: usize) -> Session {
+        self.bus.borrow_mut().wrap_at = Some(depth);
+        self
+    }
+
+    pub fn wrapped_replies(&self) -> usize {
+        self.bus.borrow().wrapped
     }
 
     pub fn with_error_flavour(self, flavour: u8) -> Session {
